@@ -1,6 +1,7 @@
 package main
 
 import (
+	"sync"
 	"bytes"
 	"encoding/binary"
 	"fmt"
@@ -16,8 +17,15 @@ import (
 // defined once and the same TypeDef object is used wherever that type occurs (e.g. two fields
 // of the same list type share one *ComplexListTypeDef).
 var typeDefCache = map[string]view.TypeDef{}
+var typeDefMu sync.Mutex // the harness's own cache is shared by the goroutines of `conc`
 
 func typeDef(t *Ty) view.TypeDef {
+	typeDefMu.Lock()
+	defer typeDefMu.Unlock()
+	return typeDefLocked(t)
+}
+
+func typeDefLocked(t *Ty) view.TypeDef {
 	key := t.String()
 	if td, ok := typeDefCache[key]; ok {
 		return td
@@ -46,13 +54,13 @@ func typeDefBuild(t *Ty) view.TypeDef {
 	case KBitlist:
 		return view.BitListType(t.N)
 	case KVector:
-		return view.VectorType(typeDef(t.Elem), t.N)
+		return view.VectorType(typeDefLocked(t.Elem), t.N)
 	case KList:
-		return view.ListType(typeDef(t.Elem), t.N)
+		return view.ListType(typeDefLocked(t.Elem), t.N)
 	case KContainer:
 		fs := make([]view.FieldDef, len(t.Fields))
 		for i, f := range t.Fields {
-			fs[i] = view.FieldDef{Name: fmt.Sprintf("f%d", i), Type: typeDef(f)}
+			fs[i] = view.FieldDef{Name: fmt.Sprintf("f%d", i), Type: typeDefLocked(f)}
 		}
 		return view.ContainerType("C", fs)
 	case KUnion:
@@ -61,7 +69,7 @@ func typeDefBuild(t *Ty) view.TypeDef {
 			opts = append(opts, nil)
 		}
 		for _, f := range t.Fields {
-			opts = append(opts, typeDef(f))
+			opts = append(opts, typeDefLocked(f))
 		}
 		return view.UnionType(opts)
 	}
